@@ -35,6 +35,8 @@ PI32 = 'starlark/src/values/types/int/pointer_i32.rs'
 INSTR = 'starlark/src/eval/bc/instr_impl.rs'
 STRT = 'starlark/src/values/types/string/str_type.rs'
 SMAP = 'starlark_map/src/small_map.rs'
+RNG = 'starlark/src/values/types/range/range_type.rs'
+RNGG = 'starlark/src/values/types/range/globals.rs'
 
 # (unit, file, old, new, expected obligation substring)
 MUTANTS = [
@@ -59,6 +61,18 @@ MUTANTS = [
     ('slice', IDX, 'if i < 0 || i >= len {', 'if i < 0 || i > len {', 'C01.index.convert_index'),
     ('slice', IDX, 'let i = if x < 0 { len + x } else { x };', 'let i = if x <= 0 { len + x } else { x };', 'C01.index.aux'),
     ('slice', IDX, 'let clamp = if stride < 0 { -1 } else { 0 };', 'let clamp = if stride <= 1 { -1 } else { 0 };', 'C01.slice.indices'),
+    ('range', RNG, 'let i = ((dist - 1) / step + 1) as i32;', 'let i = (dist / step + 1) as i32;', 'C01.range.length'),
+    ('range', RNG, '(self.start as i64 + self.step.get() as i64 * index as i64) as i32', 'self.start + self.step.get() * index', 'Range::at'),
+    ('range', RNG, 'if other < self.start || other >= self.stop {', 'if other < self.start || other > self.stop {', 'C01.range.is_in'),
+    ('range', RNG, 'if other > self.start || other <= self.stop {', 'if other > self.start || other < self.stop {', 'C01.range.is_in'),
+    ('range', RNG, 'if self_length == 1 || other_length == 1 {', 'if self_length == 2 || other_length == 1 {', 'C01.range.equals'),
+    ('range', RNG, 'stop: i32::try_from(self.start as i64 + stop as i64 * self.step.get() as i64)', 'stop: i32::try_from(self.stop as i64 + stop as i64 * self.step.get() as i64)', 'C01.range.slice'),
+    ('range', RNG, '(self.start as i64).saturating_add(index.saturating_mul(self.step.get() as i64));', '(self.start as i64).saturating_add(index.saturating_add(self.step.get() as i64));', 'C01.range.rem'),
+    ('range', RNG, 'Some(heap.alloc(rem_range.start))', 'Some(heap.alloc(rem_range.stop))', 'C01.range.iter_next'),
+    ('range', RNG, 'Ok(length) => (length as usize, Some(length as usize)),', 'Ok(length) => (length as usize + 1, Some(length as usize)),', 'C01.range.size_hint'),
+    ('range', RNG, '(self.start > self.stop && self.step.get() < 0)', '(self.start >= self.stop && self.step.get() < 0)', 'C01.range.to_bool'),
+    ('range', RNGG, 'let stop = a2.unwrap_or(a1);', 'let stop = a2.unwrap_or(0);', 'C01.range.builtin'),
+    ('range', RNGG, 'None => 0,', 'None => a1,', 'C01.range.builtin'),
     ('slice', CI, '} else if val >= limit {', '} else if val > limit + 1 {', 'C01.syntax.bound'),
     ('slice', CI, 'let end = if end < 0 { end + len } else { end };', 'let end = if end < 0 { end + len + 1 } else { end };', 'C01.syntax.convert_indices'),
     ('prec', PRD, 'Token::Caret => (BinOp::BitXor, 9, 10),', 'Token::Caret => (BinOp::BitXor, 11, 12),', 'C06.prec.bp'),
